@@ -36,7 +36,9 @@ def schedule_variants(kind, n_states, n_povms):
         full = [[("state", i), ("gate", 0), ("povm", j)] for i in range(n_states) for j in range(n_povms)]
     else:
         full = [[("state", i), ("mprocess", 0), ("povm", j)] for i in range(n_states) for j in range(n_povms)]
-    return {"all": "all", "subset": full[1:], "repetition": full + [full[0]], "permutation": list(reversed(full))}, full
+    # at least twelve schedules (two-digit schedule indices), in blocks - not periodic, so that no re-ordering of the schedules is invisible
+    many = [full[k * len(full) // 12] for k in range(12)] if len(full) < 12 else list(full)
+    return {"all": "all", "subset": full[1:], "repetition": full + [full[0]], "permutation": list(reversed(full)), "many": many}, full
 
 
 class ForwardModel(E2Contract):
@@ -60,7 +62,9 @@ class ForwardModel(E2Contract):
                     out.append(("1q", kind, on_para, var, 2))
         out += [("1q", "povmt", True, "all", 3), ("1q", "qmpt", True, "all", 3), ("1qt", "qst", True, "all", 2), ("1qt", "povmt", False, "all", 3),
                 # dimension 3 for the process-type tomographies (dim*2 != dim**2)
-                ("1qt", "qmpt", True, "subset", 2), ("1qt", "qpt", True, "subset", 2)]
+                ("1qt", "qmpt", True, "subset", 2), ("1qt", "qpt", True, "subset", 2),
+                # twelve schedules: two-digit schedule indices
+                ("1q", "qst", True, "many", 2), ("1q", "povmt", True, "many", 2)]
         if tier == "thorough":
             out += [("2q", "qst", True, "all", 2), ("2q", "povmt", True, "all", 3), ("1q", "qmpt", False, "all", 4), ("1q", "povmt", True, "all", 4),
                     ("1qt", "qst", False, "permutation", 2)]
@@ -172,3 +176,42 @@ class CircuitZeroBranchUnderC08(_ZeroBranch):
     """the last step of every QMPT circuit (a POVM measured on the ensemble a measurement process leaves) when an outcome of the measurement
     process has probability zero - outside the regular regime the forward-model contract is stated in; C06's contract, re-checked under C08"""
     prop = "C08"
+
+
+
+class FullRankIllConditioned(E2Contract):
+    """is_fullrank_matA on concrete tester sets: informationally complete but ILL-CONDITIONED (measurement axes x, z and an axis tilted 2e-5 rad out
+    of the x-z plane: smallest singular value about 1e-5) => full rank; x, z, x (not informationally complete) => rank deficient"""
+    name = "is_fullrank_matA (concrete tester sets)"
+    prop = "C08"
+    targets = (STD + "standard_qtomography:StandardQTomography.is_fullrank_matA",)
+    frame = False
+    n_conformance = 1
+    max_paths = 4
+
+    def configs(self, tier):
+        return [("tilted", True), ("tilted", False), ("deficient", True), ("deficient", False)]
+
+    def inputs(self, W, cfg, mk):
+        return dict(probe=mk.real("probe"))
+
+    def sample(self, cfg, names, rng):
+        return {n: 0.5 for n in names}
+
+    def run(self, W, cfg, inp):
+        import math
+        np = W.np
+        c_sys = make_csys(W, "1q")
+        t = 2e-5
+        axes = [(1.0, 0.0, 0.0), (0.0, 0.0, 1.0), ((math.cos(t) / math.sqrt(2), math.sin(t), math.cos(t) / math.sqrt(2)) if cfg[0] == "tilted" else (1.0, 0.0, 0.0))]
+        povms = []
+        for (x, y, z) in axes:
+            v0 = np.array([1.0, x, y, z], dtype=np.float64) / math.sqrt(2)
+            v1 = np.array([1.0, -x, -y, -z], dtype=np.float64) / math.sqrt(2)
+            povms.append(W.mod("quara.objects.povm").Povm(c_sys, [v0, v1], is_physicality_required=False))
+        qt = W.mod(STD + "standard_qst").StandardQst(povms, on_para_eq_constraint=cfg[1])
+        return bool(qt.is_fullrank_matA())
+
+    def post(self, W, cfg, inp, out):
+        return [eq("full-rank<=>informationally-complete", out, cfg[0] == "tilted",
+                   "the model has full column rank exactly when the tester set is informationally complete, however ill-conditioned")]
